@@ -235,8 +235,8 @@ PROPS = {
         "assumptions": ["real time: 25 ms approval time-out, event-driven waiting up to 1 s; slow-harness cases are discarded, never judged",
                         "pending writes are authorised when they arrive; the binding may change afterwards"],
         "runs": [
-            {"name": "matrix", "run": "TestApprovalMatrix", "kind": "rapid", "checks": {Q: 1600, T: 80000}, "shards": {Q: 8, T: 16}, "shrinktime": "15s"},
-            {"name": "staggered", "run": "TestStaggeredWrites", "kind": "rapid", "checks": {Q: 480, T: 60000}, "shards": {Q: 8, T: 16}, "shrinktime": "15s"},
+            {"name": "matrix", "run": "TestApprovalMatrix", "kind": "rapid", "checks": {Q: 1600, T: 48000}, "shards": {Q: 8, T: 16}, "shrinktime": "15s"},
+            {"name": "staggered", "run": "TestStaggeredWrites", "kind": "rapid", "checks": {Q: 480, T: 24000}, "shards": {Q: 8, T: 16}, "shrinktime": "15s"},
             {"name": "window", "run": "TestApprovalVsTimeout", "kind": "plain"},
         ],
     },
